@@ -52,8 +52,12 @@ DOMS = ('UnitSquare', 'PiSquare', 'LShape')
 PRE = {'UnitSquare': '', 'PiSquare': '', 'LShape': 'driver'}
 NPIECE = {'UnitSquare': 4, 'PiSquare': 4, 'LShape': 8}
 ASPECT = 32.0
+# wide intervals away from t = 0 (end / start = 32, 32, 64: custom non-uniform time grids) - bisection from [0, T] alone only gives end / start <= 2.
+# They take part in the 'exact' clause (the property's 1e-5) only: the tighter tolerances of the secondary clauses were measured on
+# dyadic intervals (on t = (2^-10, 2^-4) the unchanged code is 2e-6 off, inside 1e-5 and outside 1e-6).
+TIMES_WIDE = [(2.0**-8, 2.0**-3), (2.0**-5, 1.0), (2.0**-10, 2.0**-4)]
 TIMES = [(0.0, 2.0**-k) for k in range(6)] + [(2.0**-k, 2.0**-(k - 1)) for k in range(1, 6)]
-TGRIDS = [(0.0, 1 / 32, 1 / 16, 1 / 8, 1 / 4, 1 / 2, 1.0)] + [(0.0, 2.0**-k) for k in range(5)]
+TGRIDS = [(0.0, 1 / 32, 1 / 16, 1 / 8, 1 / 4, 1 / 2, 1.0)] + [(0.0, 2.0**-k) for k in range(5)] + [(0.0, 2.0**-8, 2.0**-3, 1.0), (0.0, 2.0**-5, 1.0), (0.0, 2.0**-10, 2.0**-4)]
 EVAL_T = (0.05, 0.0625, 0.1, 0.25, 0.5, 1.0, 2.0)
 TOL_EXACT, TOL_LIN, TOL_ADD, TOL_DOM, TOL_EVAL = 1e-5, 1e-12, 1e-6, 1e-6, 1e-5
 TOL_ADD_IMPLIED = 2e-5  # u0 in {1, sine}: the property gives 1e-5 per value, hence 2e-5 for parent - children
@@ -119,11 +123,11 @@ def fkey(e):
     return (float(e.time_interval[0]), float(e.time_interval[1]), float(e.space_interval[0]), float(e.space_interval[1]))
 
 
-def get_univ(dom, Lx, lt=0):
+def get_univ(dom, Lx, lt=0, wide=False):
     """dict (t0,t1,x0,x1) -> real element, for the alphabet times (lt = 0) or their real time-children (lt = 1)."""
-    k = ('U', dom, Lx, lt)
+    k = ('U', dom, Lx, lt) if not wide else ('U', dom, Lx, lt, 'wide')
     if k not in _C:
-        want = set(TIMES)
+        want = set(TIMES_WIDE if wide else TIMES)
         if lt == 1:
             want = set()
             for a, b in TIMES:
@@ -263,8 +267,8 @@ def add_viol(st, key, what, replay, cap=3):
         st['viols'].append((kk, key, what, replay))
 
 
-def piece_keys(dom, Lx, piece, maxlev=None):
-    U = get_univ(dom, Lx)
+def piece_keys(dom, Lx, piece, maxlev=None, wide=False):
+    U = get_univ(dom, Lx, 0, wide)
     out = []
     for k in sorted(U):
         j, pl = piece_of(dom, (k[2], k[3]))
@@ -339,10 +343,13 @@ def phaseA(item):
     st = new_stats()
     Lx = bounds['Lx']
     keys = piece_keys(dom, Lx, piece)
+    wide_keys = piece_keys(dom, Lx, piece, wide=True)
+    if not any(aspect_k(k) <= ASPECT for k, _ in wide_keys):
+        raise HarnessError('no wide time interval passes the aspect filter on {} piece {}'.format(dom, piece))
     bounds = dict(bounds, maxlev=Lx)
     vals = {}
     on = oracle_name(u0n)
-    for k, lev in keys:
+    for k, lev in keys + wide_keys:
         if aspect_k(k) > ASPECT:
             continue
         v, ips, prob = value_of(dom, u0n, k, vals, st)
